@@ -230,9 +230,12 @@ static int is_known(const char *key)
 }
 
 static struct kset seen_viol;
+static char *v_replay_key; /* --replay <file>: only the violation whose key is stored in the file is reported */
 int v_violation(const char *key, const char *fmt, ...)
 {
 	char buf[8192];
+	if (v_replay_key && strcmp(key, v_replay_key))
+		return 0;
 	va_list ap;
 	va_start(ap, fmt);
 	vsnprintf(buf, sizeof buf, fmt, ap);
@@ -798,6 +801,19 @@ void v_init(int argc, char **argv, const char *prop)
 		} else if (!strcmp(argv[i], "--replay-dir") && i + 1 < argc) {
 			v_replay_dir = argv[++i];
 		}
+	}
+	if (v_replay) {
+		FILE *rf = fopen(v_replay, "r");
+		char line[4096];
+		while (rf && fgets(line, sizeof line, rf))
+			if (!strncmp(line, "key=", 4)) {
+				line[strcspn(line, "\n")] = 0;
+				v_replay_key = strdup(line + 4);
+			}
+		if (rf)
+			fclose(rf);
+		if (!v_replay_key)
+			v_broken("replay file %s has no key= line", v_replay);
 	}
 	if (dl > 0)
 		v_deadline = v_t0 + dl;
